@@ -1357,11 +1357,11 @@ pub fn c03(ctx: &mut Ctx) {
     run_dp_prop(ctx, "C03", 2000, 200_000, 2);
 }
 pub fn c04(ctx: &mut Ctx) {
-    run_dp_prop(ctx, "C04", 2000, 200_000, 2);
+    run_dp_prop(ctx, "C04", 2000, 100_000, 2);
 }
 pub fn c08(ctx: &mut Ctx) {
     run_dp_prop(ctx, "C08", 2000, 200_000, 2);
 }
 pub fn c14(ctx: &mut Ctx) {
-    run_dp_prop(ctx, "C14", 2000, 200_000, 2);
+    run_dp_prop(ctx, "C14", 2000, 120_000, 2);
 }
